@@ -70,11 +70,6 @@ def make_periph(pcfg):
     return m
 
 
-def _mixin(m):
-    # AutoCSR methods on the instance's class (LiteXModule already derives from AutoCSR in this tree)
-    return m
-
-
 class Built:
     pass
 
